@@ -43,6 +43,8 @@ H = 2.0 ** -7
 FD = np.array([-1 / 60, 3 / 20, -3 / 4, 0, 3 / 4, -3 / 20, 1 / 60]) / H
 GEOMS = {'line': ['L3', 'Lrev'], 'tri': ['T2', 'TL6'], 'quad': ['Q2', 'Q4par'], 'tet': ['K2', 'K3e'], 'hex': ['H1', 'H2'],
          'wedge': ['W2']}
+GEOMS_THOROUGH = {'line': ['L2c'], 'tri': ['Tfan4', 'T3comp'], 'quad': ['Q1', 'Q4gen', 'Qmix'], 'tet': ['K1', 'K5'], 'hex': ['H4'],
+                  'wedge': ['W4']}
 AXIS_ALIGNED = {'quad': ['Q4par'], 'hex': ['H1']}    # for elements defined on rectangles / boxes only
 
 
@@ -73,9 +75,9 @@ def items(tier, seed):
         if ent.kind is None:
             its.append((ent.name, None, 'unclassified'))
             continue
-        geoms = GEOMS[ent.kind]
+        geoms = GEOMS[ent.kind] + (GEOMS_THOROUGH.get(ent.kind, []) if tier == 'thorough' else [])
         for g in geoms:
-            for variant in ('plain', 'mirrored'):
+            for variant in ('plain', 'mirrored') + (('lorder', 'vswap', 'scaled') if tier == 'thorough' else ()):
                 its.append((ent.name, g, variant))
         its.append((ent.name, None, 'reference'))
     return its
@@ -102,7 +104,15 @@ def build_mesh(ent, geom, variant, seed):
         else:
             m = M.MeshHex1.init_tensor(np.array([0., .75]), np.array([-.5, 1.]), np.array([0., .5, 2.]))
     else:
-        m = ms.seeds(seed)[geom].build()
+        st0 = ms.seeds(seed)[geom]
+        m = st0.build()
+        if variant == 'lorder':
+            r = [x for x in ms.raw_transitions(st0) if x[0].startswith('lorder')]
+            m = (r[len(r) // 2][1] if r else st0).build()
+        elif variant == 'vswap':
+            m = list(ms.raw_transitions(st0))[0][1].build()
+        elif variant == 'scaled':
+            m = m.scaled(tuple([4., .25, -2.][:m.p.shape[0]]))
     if variant == 'mirrored':
         dim = m.p.shape[0]
         m = m.mirrored(tuple([1.] + [0.] * (dim - 1)))
